@@ -4,7 +4,8 @@
    Part 1  ReposCollection.__init__ (ghist.py:1837-1896): components-before-owners
            ordering, an explicit-stack DFS, modelled as the same stack machine
            ([ostep] is one iteration of the while loop) + make_reports_data (1949-1968).
-   Part 2  ComponentBump.is_trivial / get_rbuilds_in_bump (ghist.py:135-192).
+   Part 2  ComponentBump.is_trivial / get_rbuilds_in_bump (ghist.py:135-203): the set of the
+           from-builds' ancestors (work list with a visited set), then the DFS from the to-build.
    Part 3  RGraph.__init__ / _read_branch / _mk_rcommits / _find_new_rcommits_in_build /
            _mk_bumps_info / the "not merged" pseudo build / included_at registration
            (ghist.py:532-1114) for ONE parent repository that pins ONE component.
@@ -233,16 +234,41 @@ Definition is_trivial (b : bump) : bool :=
   | Some t => nmem t (b_from b)
   end.
 
-(* the DFS of get_rbuilds_in_bump below one RBuild: a from-build is not entered
-   (and not reported); there is NO visited set; an RBuild is put into the result
-   after its parents (sorted by iid, walked from the last).  [None] = out of fuel. *)
-Fixpoint collect (fuel : nat) (cg : cgraph) (from : list nat) (x : nat) : option (list nat) :=
+(* get_rbuilds_in_bump, first loop: excluded_iids = the from-builds and all their ancestors.
+   The code keeps a work list (a Python list used as a stack: pop() takes the last entry,
+   extend() appends the parents) and the set collected so far; here the head of [todo] is the
+   top of the stack and the set is a sorted duplicate-free list.  One unit of fuel per
+   iteration of `while todo:` (plus the final test); [None] = out of fuel, never a result. *)
+Fixpoint excl_loop (fuel : nat) (cg : cgraph) (todo ex : list nat) : option (list nat) :=
   match fuel with
   | O => None
   | S f =>
-      if nmem x from then Some []
+      match todo with
+      | [] => Some ex
+      | x :: r => if nmem x ex then excl_loop f cg r ex
+                  else excl_loop f cg (rev (cparents cg x) ++ r) (nadd x ex)
+      end
+  end.
+
+(* every entry is popped once: the from-builds and the parents of each build entered;
+   parents have smaller iids than their children, so only builds <= max(from) are entered *)
+Definition sum_parents (cg : cgraph) (n : nat) : nat :=
+  fold_right (fun x a => length (cparents cg x) + a) 0 (seq 0 n).
+Definition excl_fuel (cg : cgraph) (from : list nat) : nat :=
+  S (length from + sum_parents cg (match nmax from with Some m => S m | None => 0 end)).
+Definition excluded (cg : cgraph) (from : list nat) : option (list nat) :=
+  excl_loop (excl_fuel cg from) cg (rev from) [].
+
+(* the DFS of get_rbuilds_in_bump below one RBuild: an excluded build is not entered
+   (and not reported); there is NO visited set; an RBuild is put into the result
+   after its parents (sorted by iid, walked from the last).  [None] = out of fuel. *)
+Fixpoint collect (fuel : nat) (cg : cgraph) (ex : list nat) (x : nat) : option (list nat) :=
+  match fuel with
+  | O => None
+  | S f =>
+      if nmem x ex then Some []
       else
-        match fold_left (fun acc p => match acc, collect f cg from p with
+        match fold_left (fun acc p => match acc, collect f cg ex p with
                                       | Some a, Some b => Some (a ++ b)
                                       | _, _ => None end)
                         (rev (nsort (cparents cg x))) (Some []) with
@@ -256,9 +282,12 @@ Fixpoint collect (fuel : nat) (cg : cgraph) (from : list nat) (x : nat) : option
 Definition rbuilds_in_bump (cg : cgraph) (b : bump) : option (list nat) :=
   match b_to b with
   | None => Some []
-  | Some t => match collect (S t) cg (b_from b) t with
-              | Some l => Some (nodup Nat.eq_dec l)
+  | Some t => match excluded cg (b_from b) with
               | None => None
+              | Some ex => match collect (S t) cg ex t with
+                           | Some l => Some (nodup Nat.eq_dec l)
+                           | None => None
+                           end
               end
   end.
 
